@@ -131,20 +131,27 @@ func genIncludeTreeWithFault(r vlib.Rnd) *vlib.Project {
 			return fmt.Sprintf("ENUM @e%d%s  [%d]%s", blockID, nl, blockID, nl)
 		}
 	}
+	// long: the line that carries the error is sometimes longer than the 200 bytes an error quotes
+	long := func() string {
+		if vlib.Chance(r, 1, 3) {
+			return " // " + strings.Repeat(vlib.Pick(r, []string{"x", "long annotation ", "é"}), 70+r.Intn(200))
+		}
+		return ""
+	}
 	fault := func() string {
 		switch r.Intn(6) {
 		case 0:
-			return "TYPE @dup" + nl + "  1" + nl + "TYPE @dup" + nl + "  2" + nl
+			return "TYPE @dup" + nl + "  1" + nl + "TYPE @dup" + long() + nl + "  2" + nl
 		case 1:
-			return "TYPE @bad" + nl + "  {\"x\": @undefinedType}" + nl
+			return "TYPE @bad" + long() + nl + "  {\"x\": @undefinedType}" + nl
 		case 2:
 			return "GET /q" + nl + "  Tags @noSuchTag" + nl + "  200 any" + nl
 		case 3:
-			return "Body any" + nl // incorrect context at root
+			return "Body any" + long() + nl // incorrect context at root
 		case 4:
 			return "GET /long " + "// " + strings.Repeat("x", 190+r.Intn(40)) + nl + "  Query" + nl + "    1" + nl
 		default:
-			return "URL /u" + nl + "  GET" + nl + "    200 any" + nl + "  GET" + nl + "    200 any" + nl
+			return "URL /u" + nl + "  GET" + nl + "    200 any" + nl + "  GET" + long() + nl + "    200 any" + nl
 		}
 	}
 	// include structure: root includes a subset, deeper files include later ones (acyclic)
